@@ -215,6 +215,14 @@ def check(case, res, info):
             pool = set(e) | set(wire.names_of(wire.namelist_bytes(c2s.get(c, []))))
             if c in c2s and not set(got) <= pool:
                 probs.append(('text-names-invented:%s' % c, 'got %s' % got))
+            # which half of a client's KEXINIT is rated is not fixed by the property, but every rendering must show the same half
+            jres, _info = run_case(case[:-1] + ('json',))
+            try:
+                jgot = [n for n in (report.json_names(json.loads(jres.stdout), c) or []) if n != '']
+            except ValueError:
+                jgot = None
+            if jgot is not None and (collapse(jgot) if r == 'verbose' else jgot) != got:
+                probs.append(('text-and-json-show-different-halves:%s' % c, 'text %s json %s' % (got, jgot)))
             continue
         if got != e:
             probs.append(('text-names-differ:%s:%s:%s:%s' % (kind, r, c, '+'.join(sorted(set(name_kind(c, n) for n in set(got) ^ set(e))) or ['order/multiplicity'])),
